@@ -367,11 +367,25 @@ def shape_wells(rng, ids):
     return list(ids), "list"
 
 
+def narrow_scalar(rng, v, p=0.12):
+    """A scalar volume as the narrowest numpy integer type that holds it (a value read from an instrument
+    table or a pandas column): same number, the library must not do its sums in that width."""
+    try:
+        f = float(v)
+    except Exception:
+        return v
+    if isinstance(v, dict) or not f.is_integer() or not (0 <= f < 65536) or rng.random() >= p:
+        return v
+    i = int(f)
+    names = [n for n, hi in (("int8", 128), ("uint8", 256), ("int16", 32768), ("uint16", 65536)) if i < hi]
+    return {"__npint__": [names[0] if rng.random() < 0.7 else rng.choice(names), i]}
+
+
 def shape_volumes(rng, vols, like=None):
     """Present volumes as scalar (if uniform) / list / 1-D / 2-D array with the same layout."""
     n = len(vols)
     if n >= 1 and all(v == vols[0] for v in vols) and rng.random() < 0.5:
-        return vols[0], "scalar"
+        return narrow_scalar(rng, vols[0]), "scalar"
     if like and like.startswith("2d:"):
         r, c = map(int, like[3:].split("x"))
         nested = [[vols[j * r + i] for j in range(c)] for i in range(r)]
